@@ -291,6 +291,29 @@ def lean_list(xs):
     return '[' + ', '.join(str(x) for x in xs) + ']'
 
 
+def foreign_cache_writes(reg, file, caches):
+    """textual scan of the type's source file (comments and the test module removed) for writes to a cache field THROUGH
+    ANOTHER OBJECT: `x.cache = …`, `x.cache.take()/set()/swap()/replace()/get_mut()` with x != self.  The cache state
+    machine of C09 has the alphabet {setter, query on self}; such a write is an operation outside it (seeded change C09-7:
+    `Mixture::combine` moved the inputs' memoised ln_weights into the result).  Textual on purpose: it also sees bodies the
+    parser refuses (combine's closure is one)."""
+    import os
+    try:
+        text = open(os.path.join(reg.root, file)).read()
+    except Exception:
+        return []
+    cut = re.search(r'^#\[cfg\(test\)\]\s*\nmod ', text, re.M)
+    if cut:
+        text = text[:cut.start()]
+    text = re.sub(r'//[^\n]*', '', text)
+    hits = set()
+    for c in caches:
+        for m in re.finditer(r'\b([A-Za-z_][A-Za-z_0-9]*)\s*\.\s*%s\s*(=(?!=)|\.\s*(?:take|set|swap|replace|get_mut)\s*\()' % re.escape(c), text):
+            if m.group(1) != 'self':
+                hits.add(re.sub(r'\s+', ' ', m.group(0)).replace('"', "'"))
+    return sorted(hits)
+
+
 def gen_facts(reg):
     facts = extract(reg)
     out = ['/- GENERATED by rs2lean (facts) from /repo/src — cache / setter / equality / serde facts per type.',
@@ -305,7 +328,8 @@ def gen_facts(reg):
            '  eqFields : Option (List Nat)  -- fields compared by a hand-written PartialEq (none: derived or absent)',
            '  derivedEq : Bool',
            '  serdeDerive : Bool', '  serdeProxy : Bool', '  snakeCase : Bool',
-           '  serialized : List Nat', '  skipped : List Nat', '']
+           '  serialized : List Nat', '  skipped : List Nat',
+           '  foreignCacheWrites : List String   -- source snippets writing a cache field through an object other than `self`', '']
     names = []
     js = {}
     for tf in facts:
@@ -331,13 +355,15 @@ def gen_facts(reg):
         out.append(f'  snakeCase := {"true" if tf.rename_all else "false"}')
         out.append(f'  serialized := {lean_list(ix[f] for f in tf.serialized)}')
         out.append(f'  skipped := {lean_list(ix[f] for f in tf.skipped)}')
+        fcw = foreign_cache_writes(reg, tf.file, tf.caches) if tf.caches else []
+        out.append('  foreignCacheWrites := [' + ', '.join('"' + h + '"' for h in fcw) + ']')
         out.append('')
         names.append(tf.name)
         js[tf.name] = {'file': tf.file, 'fields': tf.fields, 'params': tf.params, 'caches': tf.caches,
                        'cache_reads': tf.cache_reads, 'derived': tf.derived, 'setters': tf.setters,
                        'eq_fields': tf.eq_fields, 'derived_eq': tf.derived_eq, 'serde_derive': tf.serde_derive,
                        'serde_proxy': tf.serde_proxy, 'snake_case': bool(tf.rename_all), 'serialized': tf.serialized,
-                       'skipped': tf.skipped, 'skip_defaults': tf.skip_defaults}
+                       'skipped': tf.skipped, 'skip_defaults': tf.skip_defaults, 'foreign_cache_writes': fcw}
     out.append('def all : List TypeFacts := [' + ', '.join(names) + ']')
     out.append('')
     out.append('/-- serialisable enums: (name, derives Serialize, variants renamed to snake_case) -/')
